@@ -299,11 +299,12 @@ func init() {
 		})
 
 	register("C16",
-		"Structural clauses of encoder determinism and variant agreement: ORDER (no order-sensitive effect inside a map range; collected slices sorted before use; the sort key is the map key / sequence number), WRAP.writer (8 writer forms write exactly the encoder's bytes once), WRAP.concat (Maps string forms concatenate per-Map encodings in list order; file forms write exactly the string form), INFL.indent (the indent flag only adds whitespace), EFFECT.nondet (no goroutine/time/rand/pool on encoder paths), FWD.variadic/FWD.param (options forwarded), OPT.scope (encoders read only encoder options). Not decided: byte identity between variants beyond the structural identity of the bytes handed on."+levelNote,
+		"Structural clauses of encoder determinism and variant agreement: ORDER (no order-sensitive effect inside a map range; collected slices sorted before use; the sort key is the map key / sequence number), WRAP.writer (8 writer forms write exactly the encoder's bytes once), WRAP.concat (Maps string forms concatenate per-Map encodings in list order; file forms write exactly the string form), INFL.indent (the indent flag only adds whitespace), TAGS.protocol / TAGS.seqprotocol (in particular: no indentation is written between an element's own text and its end tag, where it would become character data), EFFECT.nondet (no goroutine/time/rand/pool on encoder paths), FWD.variadic/FWD.param (options forwarded), OPT.scope (encoders read only encoder options). Not decided: byte identity between variants beyond the structural identity of the bytes handed on."+levelNote,
 		nil,
 		func(p *Prog, r *Report) { ruleOrder(p, r, encoderRoots()) },
 		func(p *Prog, r *Report) { ruleNondet(p, r, encoderRoots()) },
 		ruleWrapWriter, ruleWrapConcat, ruleInflIndent,
+		ruleTagProtocol, ruleTagProtocolSeq,
 		func(p *Prog, r *Report) {
 			ruleFwdVariadic(p, r, func(n string) bool {
 				return hasPrefixAny(n, "mxj.Maps.", "mxj.Map.Json", "mxj.Map.Xml", "mxj.MapSeq.Xml", "mxj.AnyXml")
